@@ -197,9 +197,10 @@ def run(chk, ctx):
         want = {("Number",): {((), "Result::Ok{0: (self as Number).0}")},
                 ("UnaryOp",): {((("(self as UnaryOp).expr"),), "Result::Ok{0: UnaryOp::eval((self as UnaryOp).op, try(Expr::eval((self as UnaryOp).expr, ctx)))}")},
                 ("BinOp",): {(("(self as BinOp).left", "(self as BinOp).right"), "BinOp::eval((self as BinOp).op, try(Expr::eval((self as BinOp).left, ctx)), try(Expr::eval((self as BinOp).right, ctx)))")}}
+        unwrap = lambda r: r[len("Result::Ok{0: "):-1] if r.startswith("Result::Ok{0: ") and r.endswith("}") else r
         for k, w in want.items():
-            g = set((e, re.sub(r"\.0\.pointer", "", r)) for e, r in rows.get(k, set()))
-            g = set((tuple(re.sub(r"\.0\.pointer", "", x) for x in e), r) for e, r in g)
+            g = set((e, unwrap(r)) for e, r in rows.get(k, set()))
+            w = set((e, unwrap(r)) for e, r in w)
             chk.require(g == w, "CNT", "CNT:Expr::eval:%s" % k[0], "operands evaluated once, left before right", "Expr::%s evaluates as %s" % (k[0], sorted(g, key=str)))
         fr = [r for e, r in rows.get(("Func",), set())]
         chk.require(bool(fr) and all(re.fullmatch(r"\(Option::expect\(FuncTable::get\(.*, \(self as Func\)\.name\), '[^']*'\)\.f\)\(ctx, Deref::deref\(\(self as Func\)\.args\)\)|\(Option::expect\(FuncTable::get\(.*, \(self as Func\)\.name\), '[^']*'\)\.f\)\(ctx, \(self as Func\)\.args\)", r) for r in fr), "ORG", "ORG:Expr::eval:Func-dispatch", "(FUNC_TABLE.get(name).f)(ctx, args)", "Expr::Func dispatches as %s" % fr)
